@@ -74,7 +74,9 @@ func (e *cxQuant) cxs() string {
 	}
 	return "(" + q + " " + e.Var + ": " + e.Sort + " :: " + e.Body.cxs() + ")"
 }
-func (e *cxLet) cxs() string { return "(let " + e.Var + " := " + e.Val.cxs() + " in " + e.Body.cxs() + ")" }
+func (e *cxLet) cxs() string {
+	return "(let " + e.Var + " := " + e.Val.cxs() + " in " + e.Body.cxs() + ")"
+}
 func (e *cxIte) cxs() string {
 	return "(if " + e.C.cxs() + " then " + e.A.cxs() + " else " + e.B.cxs() + ")"
 }
